@@ -71,26 +71,43 @@ Theorem C10_deploy_closure : forall r p item p', reg_okb r = true -> deploy r p 
 Proof. exact deploy_closure_main. Qed.
 Print Assumptions C10_deploy_closure.
 
+(* the fuel of the deployment model never runs out: DeployItem terminates on every finite registry *)
+Theorem C10_deploy_total : forall r p item, exists p', deploy r p item = Some p'.
+Proof. exact deploy_total. Qed.
+Print Assumptions C10_deploy_total.
+
 (* PARTIAL: the chained case (an entity with two providers) is not covered by a general theorem; every order
    the implementation returns is judged by [order_ok] (C10_order_checker_sound).  The full statement
      forall ch dis items order, domain_okb dis items = true -> resolve ch dis items = Ok order ->
        respects items order /\ Permutation order items
-   and "resolve never panics" are FALSE of the current code: *)
-Theorem C10_chained_order_refuted : exists ch dis items order,
-  domain_okb dis items = true /\ resolve ch dis items = Ok order /\ ~ respects items order /\
+   and "resolve never panics" are FALSE of the current code, in two regions of the input space that are
+   decided from the item set alone ([region_of]):
+     RNoRequire - some doubly provided entity is required by neither of its providers
+                  (resolve removes a non-existent edge key -> inheritor, which corrupts the in-degree table);
+     RShared    - some item provides two doubly provided entities
+                  (the edge inheritor -> consumer is added twice, the child ranks leave 1..n). *)
+Theorem C10_chained_norequire_order_refuted : exists ch dis items order,
+  domain_okb dis items = true /\ region_of items = RNoRequire /\
+  resolve ch dis items = Ok order /\ ~ respects items order /\
   exists good, order_ok items good = true.
 Proof. exact chained_order_refuted. Qed.
-Print Assumptions C10_chained_order_refuted.
+Print Assumptions C10_chained_norequire_order_refuted.
 
-Theorem C10_chained_lost_item_refuted : exists ch dis items order,
-  domain_okb dis items = true /\ resolve ch dis items = Ok order /\ ~ Permutation order items.
+Theorem C10_chained_norequire_lost_item_refuted : exists ch dis items order,
+  domain_okb dis items = true /\ region_of items = RNoRequire /\
+  resolve ch dis items = Ok order /\ ~ Permutation order items.
 Proof. exact chained_lost_item_refuted. Qed.
-Print Assumptions C10_chained_lost_item_refuted.
+Print Assumptions C10_chained_norequire_lost_item_refuted.
 
-Theorem C10_chained_panic_refuted : exists ch dis items,
-  domain_okb dis items = true /\ resolve ch dis items = Panic.
+Theorem C10_chained_norequire_panic_refuted : exists ch dis items,
+  domain_okb dis items = true /\ region_of items = RNoRequire /\ resolve ch dis items = Panic.
 Proof. exact chained_panic_refuted. Qed.
-Print Assumptions C10_chained_panic_refuted.
+Print Assumptions C10_chained_norequire_panic_refuted.
+
+Theorem C10_chained_shared_panic_refuted : exists ch dis items,
+  domain_okb dis items = true /\ region_of items = RShared /\ resolve ch dis items = Panic.
+Proof. exact chained_shared_panic_refuted. Qed.
+Print Assumptions C10_chained_shared_panic_refuted.
 
 (* non-vacuity *)
 Example C10_ex_unambiguous : domain_okb dis0 burndown_items = true /\
@@ -98,9 +115,9 @@ Example C10_ex_unambiguous : domain_okb dis0 burndown_items = true /\
   exists order, resolve ch0 dis0 burndown_items = Ok order.
 Proof. split; [exact burndown_domain|]. split; [exact burndown_one_provider|]. eexists. exact burndown_resolved. Qed.
 
-Example C10_ex_chained_accepted : exists order,
+Example C10_ex_chained_accepted : region_of renames_items' = RRenames /\ exists order,
   resolve ch0 dis0 renames_items' = Ok order /\ order_ok renames_items' order = true.
-Proof. destruct renames_resolved_ok as (o & A & B & _). exists o. split; assumption. Qed.
+Proof. split; [exact renames_region|]. destruct renames_resolved_ok as (o & A & B & _). exists o. split; assumption. Qed.
 
 Example C10_ex_errors : resolve ch0 dis0 unsat_items = Err Unsatisfied /\
   resolve ch0 dis0 cyclic_items = Err SortFailure /\ resolve ch0 dis0 three_items = Err Ambiguous.
